@@ -751,6 +751,20 @@ def rule_child_pipes(ctx):
                         continue
                     before_drain = not any(b.dominates(dr, s) for dr in drains)
                     r.check(not before_drain, anchor, "stdin-fed-before-drain", "the child's stdin is not written by the waiting thread before stdout is drained", "the waiting thread itself writes the instance to the child's stdin (%s) before the child's piped stdout is drained: a child that prints more than a pipe buffer before consuming its input deadlocks with its feeder" % d, s.loc())
+            # ... nor may it wait for the thread that feeds stdin (join) before the drain: same three-way block
+            for s in b.calls():
+                if not callee_matches(callee_of(s), r"std::thread::(join_handle::)?JoinHandle(::<.*>)?::join$|thread::scoped::ScopedJoinHandle.*::join$"):
+                    continue
+                feeds = False
+                for o in origins(b, s.node["args"][0], transparent=()):
+                    if o.kind == "call" and callee_matches(o.data, r"std::thread::(functions::)?spawn$|thread::Builder::spawn$|thread::scoped::Scope.*::spawn$"):
+                        for fa in o.data.get("fn_args") or []:
+                            clo = prog.by_target[b.target].get(fa)
+                            if clo is not None and any("ChildStdin" in (u.get("ty") or "") for u in clo.upvars):
+                                feeds = True
+                if feeds:
+                    before_drain = not any(b.dominates(dr, s) for dr in drains)
+                    r.check(not before_drain, anchor, "feeder-joined-before-drain", "the thread feeding the child's stdin is not joined before stdout is drained", "the function waits (join) for the thread that writes the instance to the child's stdin before it drains the child's piped stdout: a child that prints more than a pipe buffer before consuming its input blocks, and so do the feeder and the caller", s.loc())
         # stdin: every ChildStdin value owned here must have been moved away (or dropped) before wait
         for l in ins:
             moved = False
